@@ -21,6 +21,7 @@ from engine.tlc import (MachineryError, mktemp, parse_dot, require_clean, run_tl
 from engine.wskit import BLoop, ClientSession_, ServerSession, enable_eager
 
 PEER_CODE = 4001
+BIG = bytes(range(256)) * 80          # 20480 bytes > WEBSOCKET_MAX_SYNC_CHUNK_SIZE (16 KiB)
 FIELDS = {"ev": "", "t": "", "k": "", "code": 0, "now": 0, "closed": False, "cc": 0, "tcl": False, "info": "", "n": 0}
 
 
@@ -28,13 +29,14 @@ class WsExec:
     """One real session + the application tasks R (receiver), C* (closers), S* (senders)."""
 
     def __init__(self, loop: Any, side: str, *, autoclose: bool = True, autoping: bool = True,
-                 heartbeat: int = 0, recv_timeout: int = 0, close_timeout: int = 2, nrecv: int = 2) -> None:
+                 heartbeat: int = 0, recv_timeout: int = 0, close_timeout: int = 2, nrecv: int = 2,
+                 compress: bool = False) -> None:
         import aiohttp
 
         self.loop = loop
         self.side = side
         self.opts = dict(autoclose=autoclose, autoping=autoping, heartbeat=heartbeat,
-                         recv_timeout=recv_timeout, close_timeout=close_timeout, nrecv=nrecv)
+                         recv_timeout=recv_timeout, close_timeout=close_timeout, nrecv=nrecv, compress=compress)
         loop._ready.clear()
         loop._scheduled.clear()
         loop._vtime = 0.0
@@ -42,10 +44,11 @@ class WsExec:
         hb = float(heartbeat) if heartbeat else None
         if side == "server":
             self.sess: Any = ServerSession(loop, dict(timeout=float(close_timeout), autoclose=autoclose,
-                                                      autoping=autoping, heartbeat=hb))
+                                                      autoping=autoping, heartbeat=hb), compress=compress)
         else:
             self.sess = ClientSession_(loop, dict(timeout=aiohttp.ClientWSTimeout(ws_close=float(close_timeout)),
-                                                  autoclose=autoclose, autoping=autoping, heartbeat=hb))
+                                                  autoclose=autoclose, autoping=autoping, heartbeat=hb),
+                                       compress=compress)
         self.ws = self.sess.ws
         self.tr = self.sess.tr
         self.names: Dict[Any, str] = {}
@@ -58,6 +61,7 @@ class WsExec:
         self.sess.on_tclose = lambda: self.rec("tclose")
         self.tx_close_seen = False
         self.finished = False
+        self.no_probe = False
         self.script: List[list] = []           # driver actions, enough to re-execute this run (replay)
 
     # ---- recording
@@ -140,7 +144,10 @@ class WsExec:
         self.cur[t] = "send"
         self.rec("call", t=t, k="send")
         try:
-            await self.ws.send_str("x")
+            if t.startswith("B"):       # large message: with permessage-deflate it is deflated in the executor
+                await self.ws.send_bytes(BIG)
+            else:
+                await self.ws.send_str("x")
         except asyncio.CancelledError:
             self._ret(t, "send", "Cancelled")
             raise
@@ -154,7 +161,9 @@ class WsExec:
 
     def spawn(self, t: str) -> None:
         self.script.append(["spawn", t])
-        if t.startswith("R"):
+        if t == "Rp":
+            coro = self._receiver(t, 1, None)
+        elif t.startswith("R"):
             rt = self.opts["recv_timeout"]
             coro = self._receiver(t, self.opts["nrecv"], float(rt) if rt else None)
         elif t.startswith(("C", "D")):
@@ -215,13 +224,24 @@ class WsExec:
             getattr(self, {"eof": "peer_eof"}.get(a[0], a[0]))(*a[1:])
 
     # ---- end of the execution
-    def finish(self) -> dict:
-        self.bl.settle()
+    def _run_out(self) -> None:
+        """Nothing more comes from the peer or the application: run until nothing is runnable and every
+        timer up to the horizon (close + receive timeout + two heartbeat periods) has fired."""
         o = self.opts
+        self.bl.settle()
         horizon = self.now() + o["close_timeout"] + o["recv_timeout"] + 2 * o["heartbeat"] + 3
         while self.now() < horizon and self.loop.next_timer() is not None and self.loop.next_timer() <= horizon:
             self.tick()
             self.bl.settle()
+
+    def finish(self) -> dict:
+        o = self.opts
+        self._run_out()
+        # probe: if the session is still open and nobody is inside receive(), one more receive() is issued, so
+        # that "receive() never blocks forever" is put to the test in every execution (silent peer from here on)
+        if not self.ws.closed and "receive" not in self.cur.values() and not self.no_probe:
+            self.spawn("Rp")
+            self._run_out()
         for t, task in self.tasks.items():
             if not task.done() and t in self.cur:
                 self.rec("blocked", t=t, k=self.cur[t])
@@ -234,7 +254,8 @@ class WsExec:
         self.rec("quiesce", info=type(exc).__name__ if exc is not None else "", n=len(ctxs))
         self.exc_messages = [str(c.get("message")) + ":" + repr(c.get("exception")) for c in ctxs]
         self.finished = True
-        return {"cfg": {"side": self.side, "closeTimeout": o["close_timeout"]}, "src": "", "events": self.events,
+        return {"cfg": {"side": self.side, "closeTimeout": o["close_timeout"], "heartbeat": o["heartbeat"]},
+                "src": "", "events": self.events,
                 "opts": dict(o), "excs": self.exc_messages[:3], "script": list(self.script)}
 
     def teardown(self) -> None:
@@ -303,7 +324,8 @@ def model_projection(ms: dict) -> dict:
 
 def replay_behaviour(ctx: Ctx, loop: Any, beh: List[Any], consts: dict, src: str) -> dict:
     x = WsExec(loop, consts["side"], autoclose=consts["autoclose"], autoping=True, heartbeat=consts["hb"],
-               recv_timeout=consts["rt"], close_timeout=consts["ct"], nrecv=consts["nrecv"])
+               recv_timeout=consts["rt"], close_timeout=consts["ct"], nrecv=consts["nrecv"],
+               compress=consts.get("compress", False))
     drift: Optional[str] = None
     for label, st in beh[1:]:
         act, args = parse_action(label)
@@ -355,7 +377,7 @@ def replay_behaviour(ctx: Ctx, loop: Any, beh: List[Any], consts: dict, src: str
                 drift = f"state:{act}:{diff[0]}"
                 break
             mres = {t: _seq(r) for t, r in ms["res"].items()}
-            for t in ("R", "C", "D", "S"):
+            for t in ("R", "C", "D", "S", "B"):
                 if mres.get(t, []) != x.res.get(t, []):
                     drift = f"result:{t}:{mres.get(t)}!={x.res.get(t)}"
                     break
@@ -381,9 +403,16 @@ def random_exec(ctx: Ctx, loop: Any, rng: Any) -> dict:
     hb = rng.choice([0, 0, 0, 2, 4])
     rt = rng.choice([0, 0, 1, 3])
     ct = rng.choice([2, 2, 3])
+    compress = rng.random() < 0.3
     x = WsExec(loop, side, autoclose=rng.random() < 0.7, autoping=rng.random() < 0.8, heartbeat=hb,
-               recv_timeout=rt, close_timeout=ct, nrecv=rng.randint(1, 4))
+               recv_timeout=rt, close_timeout=ct, nrecv=rng.randint(1, 4), compress=compress)
     pool = ["R", "C", "S"] + (["C2"] if rng.random() < 0.3 else []) + (["S2"] if rng.random() < 0.2 else [])
+    if compress:
+        pool += ["B"] + (["B2"] if rng.random() < 0.3 else [])     # large sends: deflated in the executor
+    if rng.random() < 0.4:
+        pool.append("R2")                 # a second receiver, started once the first one is gone
+    if rng.random() < 0.25:
+        pool.remove("C")                  # nobody closes: the session stays open unless the peer / timers end it
     unspawned = list(pool)
     polite = rng.random() < 0.5          # the peer answers our close frame
     chatty = rng.random() < 0.35         # the peer keeps sending data (also while we are closing)
@@ -396,7 +425,9 @@ def random_exec(ctx: Ctx, loop: Any, rng: Any) -> dict:
         acts: List[Any] = []
         if not bl.idle():
             acts += ["step"] * 6
-        if unspawned:
+        r_alive = "R" in x.tasks and not x.tasks["R"].done()
+        spawnable = [t for t in unspawned if t != "R2" or ("R" in x.tasks and not r_alive)]
+        if spawnable:
             acts += ["spawn"] * 2
         at_b = bl.at_boundary()
         only_io = all(bl.label(h).startswith("io:") or bl.label(h) == "lost" for h in bl.live())
@@ -413,6 +444,9 @@ def random_exec(ctx: Ctx, loop: Any, rng: Any) -> dict:
                 acts.append("eof")
         if at_b and only_io and x.now() < 12:
             acts += ["tick"] * (3 if bl.idle() else 1)
+            nt = x.loop.next_timer()
+            if can_peer and nt is not None and nt <= x.loop.time() + 1.0:
+                acts += ["frame+tick"] * 3      # a frame and a timer deadline handled in the same loop iteration
         if ncancel < 1 and rng.random() < 0.12:
             live = [t for t, tk in x.tasks.items() if not tk.done()]
             if live:
@@ -423,8 +457,12 @@ def random_exec(ctx: Ctx, loop: Any, rng: Any) -> dict:
         if a == "step":
             x.step()
         elif a == "spawn":
-            t = unspawned.pop(rng.randrange(len(unspawned)))
+            t = rng.choice(spawnable)
+            unspawned.remove(t)
             x.spawn(t)
+        elif a == "frame+tick":
+            x.peer(rng.choice(["data", "data", "pong", "ping"]))
+            x.tick()
         elif a == "frame":
             k = rng.choice(["data", "data", "ping", "pong", "close", "bad"] if rng.random() < 0.5 else ["data", "ping", "close"])
             x.peer(k, code)
@@ -523,7 +561,8 @@ def write_cfg(side: str, *, fixed: bool, invs: Optional[List[str]] = None, autoc
                            fc=b((fixed or CODE_NOW["fc"]) if fc is None else fc),
                            fe=b((fixed or CODE_NOW["fe"]) if fe is None else fe), m1=b(m1), m2=b(m2),
                            invs="\n".join("INVARIANT " + i for i in invs)))
-    consts = {"side": side, "autoclose": autoclose, "nrecv": nrecv, "rt": rt, "ct": ct, "hb": hb}
+    consts = {"side": side, "autoclose": autoclose, "nrecv": nrecv, "rt": rt, "ct": ct, "hb": hb,
+              "compress": "B" in tasks}
     return p, consts
 
 
@@ -762,7 +801,7 @@ def replay(ctx: Ctx, path: str) -> int:
         loop = steploop.new_loop()
         enable_eager(loop)
         x = WsExec(loop, t["cfg"]["side"], **t["opts"])
-        x.run_script(t["script"])
+        x.run_script([a for a in t["script"] if a != ["spawn", "Rp"]])
         new = x.finish()
         x.teardown()
         same = [{k: e[k] for k in show} for e in new["events"]] == [{k: e[k] for k in show} for e in t["events"]]
